@@ -219,6 +219,18 @@ def run(ctx: Context, rep) -> None:
             continue
         after = wcfg.reachable(commits, strict=True,
                                follow=lambda a, b, lab: lab not in ("exc", "raise"))
+        # (a defaultdict(list) store never raises on a missing key)
+        init_w = ci.methods.get("__init__")
+        store_inits = [x.value for m_ in ci.methods.values()
+                       for x in m_.body_nodes()
+                       if isinstance(x, (ast.Assign, ast.AnnAssign)) and
+                       x.value is not None and dotted(
+                           x.targets[0] if isinstance(x, ast.Assign)
+                           else x.target) == f"self.{field}"]
+        total_store = init_w is not None and bool(store_inits) and all(
+            isinstance(v, ast.Call) and (dotted(v.func) or "").endswith(
+                "defaultdict") and v.args and dotted(v.args[0]) == "list"
+            for v in store_inits)
         fallible = []
         for n in after:
             if n in commits:
@@ -234,6 +246,7 @@ def run(ctx: Context, rep) -> None:
                 fallible.append(n)
             elif n.kind in ("stmt", "test") and n.ast is not None and any(
                     isinstance(x, ast.Subscript) and isinstance(x.ctx, ast.Load)
+                    and not (total_store and dotted(x.value) == f"self.{field}")
                     for x in ast.walk(n.ast)
                     if not isinstance(n.ast, (ast.FunctionDef, ast.ClassDef))):
                 # subscript loads inside the commit statement itself are
@@ -243,6 +256,8 @@ def run(ctx: Context, rep) -> None:
         # self._buffer[name].append(x): a KeyError there happens after
         # earlier iterations committed
         for c in commits:
+            if total_store:
+                break
             if c in after and c.kind == "call" and any(
                     isinstance(x, ast.Subscript)
                     for x in ast.walk(c.ast.func.value)):
